@@ -566,17 +566,14 @@ func C11(c *Ctx) {
 	}
 
 	// ---- R9: every successful return lies under a test that the context has not ended (a short program can finish
-	// before the interrupt is seen; the runtime can lose an interrupt)
+	// before the interrupt is seen; the runtime can lose an interrupt).  The test may sit in the helper that runs
+	// the program (the frame): then the helper answers with an error whenever the context has ended, and Exec's
+	// success lies under that error being nil.
 	{
-		n9, bad := 0, ""
-		for _, b := range exec.Blocks {
-			ret, ok := b.Instrs[len(b.Instrs)-1].(*ssa.Return)
-			if !ok || len(ret.Results) != 2 || !ssau.IsNilConst(ret.Results[1]) {
-				continue
-			}
-			n9++
-			tested := false
-			for _, ft := range flow.FactsAt(b) {
+		runSite := siteInFn(exec, runCall.(ssa.Instruction))
+		// ctxAlive: facts say ctx.Err() == nil, tested at or after `after`
+		ctxAlive := func(fs []flow.Fact, fn *ssa.Function, after ssa.Instruction) bool {
+			for _, ft := range fs {
 				bo, isB := ft.Cond.(*ssa.BinOp)
 				if !isB || (bo.Op != token.EQL && bo.Op != token.NEQ) {
 					continue
@@ -592,11 +589,55 @@ func C11(c *Ctx) {
 				if !isC || !cl.Common().IsInvoke() || cl.Common().Method.Name() != "Err" || !isContext(cl.Common().Value.Type()) {
 					continue
 				}
-				if !traces(cl.Common().Value, ctxP) {
+				if !traces(cl.Common().Value, ctxP) || (bo.Op == token.EQL) != ft.True {
 					continue
 				}
-				if (bo.Op == token.EQL) == ft.True && flow.Reachable(runCall.Block(), cl.Block(), nil) {
-					tested = true
+				if after == nil || cl.Parent() != fn || after.Block() == cl.Block() || flow.Reachable(after.Block(), cl.Block(), nil) {
+					return true
+				}
+			}
+			return false
+		}
+		// does the frame (when it is a helper) report an ended context as an error?
+		frameGuards := false
+		var frameErr ssa.Value
+		if frame != exec && runSite != nil {
+			if fc, isCall := runSite.(*ssa.Call); isCall && fc.Common().StaticCallee() == frame {
+				frameErr = errResultOf(fc)
+				frameGuards = true
+				for _, b := range frame.Blocks {
+					ret, ok := b.Instrs[len(b.Instrs)-1].(*ssa.Return)
+					if !ok || len(ret.Results) == 0 {
+						continue
+					}
+					last := ret.Results[len(ret.Results)-1]
+					if !ssau.IsNilConst(last) && provablyNonNilErr(last) {
+						continue
+					}
+					if !ctxAlive(flow.FactsAt(b), frame, runCall.(ssa.Instruction)) {
+						frameGuards = false
+					}
+				}
+			}
+		}
+		n9, bad := 0, ""
+		for _, b := range exec.Blocks {
+			ret, ok := b.Instrs[len(b.Instrs)-1].(*ssa.Return)
+			if !ok || len(ret.Results) != 2 || !ssau.IsNilConst(ret.Results[1]) {
+				continue
+			}
+			n9++
+			fs := flow.FactsAt(b)
+			tested := ctxAlive(fs, exec, runSite)
+			if !tested && frameGuards && frameErr != nil {
+				for _, ft := range fs {
+					if bo, isB := ft.Cond.(*ssa.BinOp); isB && (bo.Op == token.EQL || bo.Op == token.NEQ) && ssau.IsNilConst(bo.Y) {
+						for _, d := range phiDefs(bo.X, nil, map[ssa.Value]bool{}) {
+							if d == frameErr && (bo.Op == token.EQL) == ft.True {
+								tested = true
+							}
+						}
+					}
 				}
 			}
 			if !tested {
@@ -679,4 +720,24 @@ func C11(c *Ctx) {
 	if n5 < 5 {
 		c.R.Break("C11-R5: expected at least 5 context hand-overs in core, found %d", n5)
 	}
+}
+
+// provablyNonNilErr: an error value that cannot be nil: a package sentinel, or an error made on the spot.
+func provablyNonNilErr(v ssa.Value) bool {
+	for _, d := range phiDefs(v, nil, map[ssa.Value]bool{}) {
+		switch x := d.(type) {
+		case *ssa.UnOp:
+			if _, isG := x.X.(*ssa.Global); isG {
+				continue
+			}
+		case *ssa.Call:
+			if n := ssau.CalleeName(x); n == "errors.New" || n == "fmt.Errorf" {
+				continue
+			}
+		case *ssa.MakeInterface:
+			continue
+		}
+		return false
+	}
+	return true
 }
